@@ -15,7 +15,8 @@
 EXTENDS Integers, Sequences, FiniteSets, TLC, Json
 
 CONSTANTS SR, SC, DR, DC,      \* scan rows/cols, detector rows/cols
-          BatchBug             \* negative control: normalise by the batch total instead of per pattern
+          BatchBug,            \* negative control: normalise by the batch total instead of per pattern
+          ShiftBug             \* negative control: a batch's origins fetched at  batch number * CURRENT batch length
 
 Scan == (0..(SR - 1)) \X (0..(SC - 1))
 NP == SR * SC
@@ -24,8 +25,9 @@ PatOf(k) == <<k \div SC, k % SC>>
 
 VARIABLES par,        \* parameters of the intensity family
           table,      \* pattern number -> <<<<numR, den>>, <<numC, den>>>>  (filled batch by batch)
-          ndone, bs
-vars == <<par, table, ndone, bs>>
+          ndone, bs,
+          oidx        \* pattern number -> index of the fitted origin it is shifted by (filled batch by batch)
+vars == <<par, table, ndone, bs, oidx>>
 
 \* a family of positive integer patterns (mixes row, column and scan dependence)
 Inten(p, r, c) == 1 + (((par.a * r) + (par.b * c) + (par.d * p[1]) + (par.e * p[2]) + (par.f * r * c)) % 5)
@@ -41,7 +43,7 @@ Com(p) == << <<SumOver(Det, p, "row"), Total(p)>>, <<SumOver(Det, p, "col"), Tot
 
 Params == [a : {0, 1, 2}, b : {0, 1, 3}, d : {0, 2}, e : {0, 1}, f : {0, 1}, g : {0, 1}, h : {0, 2}]
 
-Init == /\ par \in Params /\ table = [k \in {} |-> 0] /\ ndone = 0 /\ bs \in 1..NP
+Init == /\ par \in Params /\ table = [k \in {} |-> 0] /\ ndone = 0 /\ bs \in 1..NP /\ oidx = [k \in {} |-> 0]
 
 \* one batch: the next `bs` patterns in order
 Batch ==
@@ -54,6 +56,10 @@ Batch ==
                        THEN IF BatchBug THEN << <<Com(PatOf(k))[1][1], btot>>, <<Com(PatOf(k))[2][1], btot>> >>
                             ELSE Com(PatOf(k))
                        ELSE table[k]]
+        \* the same batches drive shift_origin_to: pattern k of the batch is shifted by the fitted origin with
+        \* this index (the design: its own index, whatever the batch size and however short the last batch is)
+        /\ oidx' = [k \in DOMAIN oidx \cup B |->
+                      IF k \in B THEN (IF ShiftBug THEN ((ndone \div bs) * (hi - ndone)) + (k - ndone) ELSE k) ELSE oidx[k]]
         /\ ndone' = hi
   /\ UNCHANGED <<par, bs>>
 Next == Batch
@@ -63,6 +69,7 @@ Spec == Init /\ [][Next]_vars
 REq(x, y) == x[1] * y[2] = y[1] * x[2]
 ScheduleIndependent ==
   ndone = NP => \A k \in 0..(NP - 1) : REq(table[k][1], Com(PatOf(k))[1]) /\ REq(table[k][2], Com(PatOf(k))[2])
+ShiftScheduleIndependent == ndone = NP => \A k \in 0..(NP - 1) : oidx[k] = k
 \* the centre of mass lies inside the detector (sanity of the transcription)
 InsideDetector ==
   \A k \in DOMAIN table : /\ table[k][1][1] >= 0 /\ table[k][1][1] <= (DR - 1) * table[k][1][2]
